@@ -1026,7 +1026,12 @@ func (g *psGen) hostile() {
 			}
 		}
 	}
-	switch t.Choose(16) {
+	switch t.Choose(18) {
+	case 16:
+		// write into whatever composite object an operator hands out
+		w([]string{"matrix", "StandardEncoding", "[ 1 2 3 ]", "6 array"}[t.Choose(4)] + fmt.Sprintf(" dup %d ", t.Choose(6)) + val() + " put pop")
+	case 17:
+		w([]string{"currentdict", "userdict", "errordict", "FontDirectory", "1183615869 internaldict", "/CIDInit /ProcSet findresource", "systemdict"}[t.Choose(7)] + " dup /evil " + val() + " put pop")
 	case 12:
 		w("1183615869 internaldict /evil " + val() + " put")
 	case 13:
